@@ -816,6 +816,29 @@ pub fn run(tier: Tier, totals: &mut Totals) {
 
 /// Sizes far beyond the search bound: collections with hundreds of items and hundreds of live handles.
 fn scale(tier: Tier, totals: &mut Totals) {
+    // a command that takes any number of collections, called with 2, 3, 1, 4, 2 of them in one run (in
+    // every rotation): each call sees exactly its own arguments
+    {
+        let counts = [2usize, 3, 1, 4, 2];
+        for rot in 0..counts.len() {
+            let order: Vec<usize> = (0..counts.len()).map(|k| counts[(k + rot) % counts.len()]).collect();
+            let mut text = String::from("a1 = array 1\na2 = array 2 2\na3 = array 3 3 3\na4 = array 4 4 4 4\n");
+            let mut expect: Vec<(String, Option<String>)> = vec![];
+            for (k, n) in order.iter().enumerate() {
+                let args: Vec<String> = (1..=*n).map(|i| format!("${{a{}}}", i)).collect();
+                text.push_str(&format!("c{} = array_concat {}\nl{} = array_length ${{c{}}}\nj{} = array_join ${{c{}}} \"\"\n", k, args.join(" "), k, k, k, k));
+                let joined: String = (1..=*n).map(|i| i.to_string().repeat(i)).collect();
+                expect.push((format!("l{}", k), Some((n * (n + 1) / 2).to_string())));
+                expect.push((format!("j{}", k), Some(joined)));
+            }
+            // the same for set_from_array behind it (one argument after many) and a failing call in between
+            text.push_str("bad = array_concat ${a1} nohandle ${a2}\ns = set_from_array ${a3}\nss = set_size ${s}\n");
+            expect.push(("bad".into(), Some("false".into())));
+            expect.push(("ss".into(), Some("1".into())));
+            let exp: Vec<(&str, Option<String>)> = expect.iter().map(|(k, v)| (k.as_str(), v.clone())).collect();
+            crate::util::scale_case_totals(totals, &format!("variadic-calls order {:?}", order), &text, &exp);
+        }
+    }
     // index texts: what is not an unsigned number (a sign in front, blanks, a fraction, another script's
     // digits, a number beyond the machine word) is an error and leaves the array alone; `+1` is 1
     {
@@ -888,7 +911,7 @@ fn scale(tier: Tier, totals: &mut Totals) {
             }
         }
     }
-    let sizes: Vec<u64> = tier.pick(vec![10, 70, 300, 4000], vec![10, 70, 300, 1000, 4000, 20000]);
+    let sizes: Vec<u64> = with_thresholds(tier.pick(vec![10, 70, 300, 4000], vec![10, 70, 300, 1000, 4000, 20000]), tier.pick(1024, 8192));
     for &n in &sizes {
         let tri = (n * (n + 1) / 2).to_string();
         // array: push n items, read the ends, join, pop everything
@@ -999,7 +1022,7 @@ pub fn replay(case: &Value) -> Result<String, String> {
     Ok(out.join("\n"))
 }
 
-pub const RULE: &str = "explicit-state breadth-first search from the empty handle table: creators (array, range, map, set_new, set_from_array, array_concat, set_to_array, map_keys), every mutator and query of the statement, is_array/is_map/is_set, release and release -r, each given every live handle, a released handle, an unknown text and a text that looks like a handle, indexes {0,1,2,-1,x}, values {a, empty, 'b c', 0 (, false, look-alike handle, e-acute)} and the handle of the collection itself or of the other live collection as array item, set member, map key and map value (release -r follows such references); growing operations are disabled at 2 live handles / length 2 so the space is finite and searched to a fixpoint. Each transition runs the real command, compares its output with the model (vector / map / set per live handle) and then the complete handle table (every collection equal to the model, no other entry) and the variable map (must stay empty). States are de-duplicated on the multiset of collection contents plus the implementation's remaining state. evaluations = transitions; distinct_nontrivial = distinct states. Scale cases (scripts, results computed in Rust): an array / a map / a set with 10/70/300 (thorough 1000, 3000) items built, read at both ends, joined, searched, emptied; as many live handles held by one outer array and taken by a recursive release. Index texts: 23 texts (signs, blanks, fractions, other digits, beyond the machine word) x arrays of 0/1/3 items through array_get / array_set / array_remove against usize parsing. Joins of non-ASCII items and separators. The quick sizes include 4000 items (thorough 20000), with set_from_array and array_concat of the big array";
+pub const RULE: &str = "explicit-state breadth-first search from the empty handle table: creators (array, range, map, set_new, set_from_array, array_concat, set_to_array, map_keys), every mutator and query of the statement, is_array/is_map/is_set, release and release -r, each given every live handle, a released handle, an unknown text and a text that looks like a handle, indexes {0,1,2,-1,x}, values {a, empty, 'b c', 0 (, false, look-alike handle, e-acute)} and the handle of the collection itself or of the other live collection as array item, set member, map key and map value (release -r follows such references); growing operations are disabled at 2 live handles / length 2 so the space is finite and searched to a fixpoint. Each transition runs the real command, compares its output with the model (vector / map / set per live handle) and then the complete handle table (every collection equal to the model, no other entry) and the variable map (must stay empty). States are de-duplicated on the multiset of collection contents plus the implementation's remaining state. evaluations = transitions; distinct_nontrivial = distinct states. Scale cases (scripts, results computed in Rust): an array / a map / a set with 10/70/300 (thorough 1000, 3000) items built, read at both ends, joined, searched, emptied; as many live handles held by one outer array and taken by a recursive release. Index texts: 23 texts (signs, blanks, fractions, other digits, beyond the machine word) x arrays of 0/1/3 items through array_get / array_set / array_remove against usize parsing. Joins of non-ASCII items and separators. The quick sizes include 4000 items (thorough 20000), with set_from_array and array_concat of the big array. Variadic calls: array_concat with 2, 3, 1, 4, 2 collections in one run, in every rotation, then a failing call and set_from_array. Fixed cases run at the threshold sizes (p-1, p, p+1 around powers of two and ten), each script in a child process";
 pub const ASSUMPTIONS: &[&str] = &["listings whose order the documentation does not fix (map_keys, set_to_array) are compared as multisets and then sorted in place by the harness", "random handle names are opaque; a collision of two 20-character random names is outside the model", "operations are run through run_instruction with already-bound arguments"];
 pub const EXHAUSTIVE: bool = true;
 pub const WALL_CAP_S: (u64, u64) = (50, 1500);
